@@ -49,6 +49,10 @@ Definition random_type (l : v3) (ar x : v3) := assemble l (triad ar x).
 Definition random_mt (m : T * T * T * T * T * T) := normalise6 m.
 End Sampling.
 
+(* random_sample of MTfit/algorithms/monte_carlo.py for several events: one block of draws per event, every event's
+   samples made from its own block by the single-event generator *)
+Definition joint_draw {D S : Type} (sampler : D -> S) (blocks : list (list D)) : list (list S) := map (map sampler) blocks.
+
 (* ---- binary64 execution *)
 From Coq Require Import PrimFloat Bool.
 Definition f_random_type := @random_type float PrimFloat.add PrimFloat.sub PrimFloat.mul PrimFloat.div PrimFloat.sqrt.
@@ -60,3 +64,17 @@ Definition feq6 (a b : float * float * float * float * float * float) : bool :=
 Definition check_type (s2 : float) (l ar x : float * float * float) (expected : float * float * float * float * float * float) : bool :=
   feq6 (f_random_type s2 l ar x) expected.
 Definition check_mt (m expected : float * float * float * float * float * float) : bool := feq6 (f_random_mt m) expected.
+
+(* joint draws in the correspondence run: the per-event structure is applied inside Coq *)
+Fixpoint forall2b {A B} (e : A -> B -> bool) (a : list A) (b : list B) : bool :=
+  match a, b with
+  | nil, nil => true
+  | cons x a', cons y b' => e x y && forall2b e a' b'
+  | _, _ => false
+  end.
+Definition check_joint_mt (blocks expected : list (list (float * float * float * float * float * float))) : bool :=
+  forall2b (forall2b feq6) (joint_draw f_random_mt blocks) expected.
+Definition check_joint_type (s2 : float) (l : float * float * float)
+  (blocks : list (list ((float * float * float) * (float * float * float))))
+  (expected : list (list (float * float * float * float * float * float))) : bool :=
+  forall2b (forall2b feq6) (joint_draw (fun d => f_random_type s2 l (fst d) (snd d)) blocks) expected.
